@@ -10,7 +10,7 @@ TECHNIQUE = "deterministic simulation: N concurrent requestors (real AEs and scr
 RULE = (
     "a case = one acceptor AE with maximum_associations m in 1..4 and N in m-1..m+4 requestors (real AEs in their own user "
     "threads, or scripted peers) connecting within a seeded window, holding the association for a seeded time and then "
-    "releasing/aborting, with seeded stalls of acceptor negotiation threads; checked: at every event sequence number the number "
+    "releasing/aborting, with seeded stalls of acceptor negotiation threads; in a third of the cases the entity listens on two ports and the requestors are spread over both; checked: at every event sequence number the number "
     "of acceptor associations that fired EVT_ESTABLISHED and have not yet ended is <= m, and every A-ASSOCIATE-RJ carries "
     "(rejected-transient, presentation-related, local-limit-exceeded); non-trivial = N > m and at least two negotiations "
     "overlapped in time; distinct = distinct run digests"
@@ -36,12 +36,19 @@ def gen(rng, idx, tier):
             "hold": rng.choice([0.0, 0.002, 0.01, 0.03, 0.08]),
             "end": rng.choice(["release", "release", "abort", "close"]),
             "echo": rng.randrange(2),
+            "port": 0,
         })
     stalls = []
     for _ in range(rng.choice([0, 0, 1, 2])):
         stalls.append({"role": "assoc:acc%d" % rng.randrange(0, n), "at": rng.choice([0.0005, 0.001, 0.002, 0.005, 0.012]),
                        "dur": rng.choice([0.002, 0.01, 0.03])})
-    return {"m": m, "reqs": reqs, "stalls": stalls, "sched": C.gen_sched(rng), "net": C.gen_net(rng)}
+    servers = 1
+    if rng.randrange(3) == 0:
+        # the same application entity listens on two ports: the limit is the entity's, not a server's
+        servers = 2
+        for rq in reqs:
+            rq["port"] = rng.randrange(2)
+    return {"m": m, "reqs": reqs, "stalls": stalls, "servers": servers, "sched": C.gen_sched(rng), "net": C.gen_net(rng)}
 
 
 def shrink(sc):
@@ -74,6 +81,8 @@ def execute(sc, ctx):
     scp = ctx.make_ae("SCP", acse=0.5, dimse=0.5, network=0.6, max_assoc=sc["m"])
     scp.add_supported_context(Verification)
     ctx.start_server(scp)
+    if sc.get("servers", 1) > 1:
+        ctx.start_server(scp, port=11114)
     for st in sc["stalls"]:
         def mk(st=st):
             def fire():
@@ -90,7 +99,7 @@ def execute(sc, ctx):
             ctx.sleep(rq["start"])
             ae = ctx.make_ae("SCU%d" % i, acse=0.5, dimse=0.5, network=0.6)
             ae.add_requested_context(Verification)
-            assoc = ctx.associate(ae)
+            assoc = ctx.associate(ae, port=11114 if rq.get("port") else 11112)
             out[i] = {"established": assoc.is_established, "rejected": assoc.is_rejected}
             if not assoc.is_established:
                 return
@@ -107,7 +116,7 @@ def execute(sc, ctx):
         def run():
             ctx.sleep(rq["start"])
             p = RawPeer(ctx, "raw%d" % i)
-            ac = p.associate([(1, C.VERIFICATION, [C.IVLE])], timeout=1.0, calling="RAW%d" % i)
+            ac = p.associate([(1, C.VERIFICATION, [C.IVLE])], port=11114 if rq.get("port") else 11112, timeout=1.0, calling="RAW%d" % i)
             ok = isinstance(ac, dict)
             out[i] = {"established": ok, "rejected": isinstance(ac, tuple) and ac[0] == "rj"}
             if ok:
